@@ -36,7 +36,10 @@ impl GridSpec {
         let cols = 2 + rng.below(if big { 39 } else { 8 });
         let (dlat, dlon, lat_s, lon_w) = if projected {
             let d = *rng.pick(&[1000.0, 2500.0, 10000.0]);
-            (d, d * *rng.pick(&[1.0, 2.0]), rng.int(5000, 6000) as f64 * 1000.0, rng.int(300, 700) as f64 * 1000.0)
+            // northings and eastings of either sign (a grid entirely west and south of the
+            // false origin has nothing but negative bounds)
+            let (sn, se) = (if rng.chance(0.3) { -1.0 } else { 1.0 }, if rng.chance(0.3) { -1.0 } else { 1.0 });
+            (d, d * *rng.pick(&[1.0, 2.0]), sn * rng.int(5000, 6000) as f64 * 1000.0, se * rng.int(300, 700) as f64 * 1000.0)
         } else {
             // increments with and without an exact binary representation
             let d = *rng.pick(&[0.25, 0.5, 1.0, 0.125, 0.1, 0.05, 0.2, 0.3]);
